@@ -232,7 +232,7 @@ theorem symlink_entry (t : List String) : symlink w t (d ++ [nm]) = pSymlink w t
   simp [symlink, withPath, resolve_entry h nm hs false (Or.inl rfl)]
 theorem mkdir_entry (mode : Nat) : mkdir w (d ++ [nm]) mode = pMkdir w (d ++ [nm]) mode := by
   simp [mkdir, withPath, resolve_entry h nm hs false (Or.inl rfl)]
-theorem utimens_entry (t : Nat) : utimensNoFollow w (d ++ [nm]) t = pUtimens w (d ++ [nm]) t := by
+theorem utimens_entry (t : Int) : utimensNoFollow w (d ++ [nm]) t = pUtimens w (d ++ [nm]) t := by
   simp [utimensNoFollow, withPath, resolve_entry h nm hs false (Or.inl rfl)]
 theorem lstat_entry : lstat w (d ++ [nm]) =
     match find w (d ++ [nm]) with | some n => .ok n | none => .error .noent := by
